@@ -564,13 +564,16 @@ def cli_part(chk, drv, r, tier, fns, PGD):
     import mchap.application.assemble as A
 
     work = tempfile.mkdtemp(prefix="verif-c13-")
-    n_ds = {"warm": 1, "quick": 5, "thorough": 15}[tier]
+    n_ds = {"warm": 1, "quick": 6, "thorough": 18}[tier]
     mcmc = ["--mcmc-steps", "200", "--mcmc-burn", "80", "--mcmc-seed", str(r.randrange(1, 10 ** 6))]
     reports = [("AFP", "AOP", "GP"), ("AOP",), ("GP",), ("AFP", "AOP"), (), ("GP", "AFP"), ("AOP", "GP", "ACP")]
     try:
         for d in range(n_ds):
-            kind = d % 5
-            if kind == 0:      # common thresholds
+            kind = d % 6
+            if kind == 5:      # very shallow data of few haplotypes at threshold 1.0: records in which nothing is listed (NOA + REFMASKED, no
+                               # ALT) although the samples' called genotypes hold the reference haplotype - their GT is all '.'
+                shape = dict(n_samples=2, ploidies=(4, 2), depth=(1, 3), max_snvs=2); thr = "1.0"
+            elif kind == 0:      # common thresholds
                 shape = dict(n_samples=3, ploidies=r.choice([(2, 4), (4, 2, 2)]), depth=(6, 16)); thr = r.choice(["0.2", "0.5"])
             elif kind == 1:    # high thresholds on shallow data: the reference is often present below the threshold (REFMASKED, '.' in GT)
                 shape = dict(n_samples=r.choice([2, 3]), ploidies=r.choice([(2, 4), (4, 2, 2)]), depth=(3, 10)); thr = r.choice(["0.9", "1.0", "0.75", "0.95"])
